@@ -146,6 +146,11 @@ func checkC04(w *World, r *Report) {
 	r.Rule("R04.19", "a literal needs its closing quote: LexLiteral reaches its LITERAL return only when the closing quote was seen or through ConstructToken, which reports a missing terminator", 1)
 	r.guard("R04.19", func() { c04LiteralClosed(w, r) })
 
+	r.Rule("R04.23", "Number ::= Digits ('.' Digits?)? | '.' Digits has no length limit: the number lexer reads the digits with the floating-point reader alone, never with an integer parser (which rejects everything from 2^63 on)", 1)
+	r.guard("R04.23", func() {
+		noIntegerParser(w, r, "R04.23", w.SSAFunc(w.Method("xpath", "CommonLex", "LexNum")), "the value of a number token", "an integer literal of 19 or more digits is rejected as a bad number although the same value written with a decimal point is accepted")
+	})
+
 	r.Rule("R04.20", "end of input is signalled only when the input is exhausted: the lexer never returns a decoded rune equal to the end marker (a NUL character is an invalid character, not the end of the expression)", 1)
 	r.guard("R04.20", func() { c04NoFalseEOF(w, r) })
 
